@@ -141,6 +141,9 @@ def theirs(draw, our):
         'extended': draw(st.sampled_from([None, None, None, True])),
         'fault': fault,
         'truncate_at': draw(st.integers(0, 40)),
+        # total length of the optional parameters steered onto the one-octet boundary (254 / 255 in the RFC 4271 form,
+        # 255 / 256 in the RFC 9072 form) with an unknown capability as filler
+        'pad_to': draw(st.sampled_from([None, None, None, 253, 254, 255, 256])),
     }
 
 
@@ -205,6 +208,13 @@ def peer_open_bytes(p: dict, our_router_id: int) -> bytes:
     extended = p['extended']
     if any(len(v) > 255 for _, v in params):
         extended = True
+    pad_to = p.get('pad_to')
+    if pad_to and fault not in ('truncate',):
+        per = 3 if extended else 2  # parameter header: type + one or two length octets
+        total = sum(per + len(v) for _, v in params)
+        gap = pad_to - total - per - 2  # room for the value of an unknown capability (code, length, value)
+        if 0 <= gap <= 255 and (extended or pad_to <= 255):
+            params.append((2, bytes([0xE7, gap]) + bytes(gap)))
     body = build.open_body(version, asn2, hold, rid, params, extended)
     if fault == 'truncate':
         cut = 10 + p['truncate_at']
@@ -484,6 +494,8 @@ def check(case: dict) -> dict:
     nontrivial = differ >= 2 or pd['extended_params'] or d['extended_params'] or o['local_as'] > 65535 or p['as'] > 65535
     if pd['extended_params']:
         classes.append('peer-open-rfc9072')
+    if p.get("pad_to") and len(body) > 9 and (body[9] in (253, 254, 255) or pd["extended_params"]):
+        classes.append(f'peer-open-optional-parameters-length-steered:{p["pad_to"]}')
     if o['local_as'] > 65535:
         classes.append('local-as4')
     if p['as'] > 65535:
